@@ -226,7 +226,8 @@ def check_ptr_cases(rep, cases, layouts, seed, tag):
             if got != want or r.get("exit") != 0:
                 rep.violation("ptr", key + (" :: layout" if layout else " :: output"),
                               {"expected_lines": want, "observed_lines": got, "exit": r.get("exit"), "layout": layout,
-                               "cells": "x y arr[0] arr[1] s.m s.a[0] s.a[1] w.m w.n p py, before and after the call (the callee's own prints in between)",
+                               "cells": "x y arr[0] arr[1] s.m s.a[0] s.a[1] w.m w.n p py t.u.m t.u.a[1] t.k ss[0].m ss[1].m ss[1].a[1], "
+                                        "before and after the call (the callee's own prints in between)",
                                "source": r.get("source", res["source"])})
     return checked
 
@@ -239,7 +240,7 @@ def part_ptr(rep, tier, seed, layouts):
                                "legality / stored values fit their types)" % r.violated)
     cases = r.cases
     done = [c for c in cases if c["status"] == "done"]
-    changed = [c for c in done if c["out"][:11] != c["out"][-11:]]
+    changed = [c for c in done if c["out"][:c["n"]] != c["out"][-c["n"]:]]
     log("[tlc] MC_MachinePtr/%s: %d states, %d programs (%d run to completion, %d change a caller cell, %d refused as illegal), %.1fs" %
         (cfg, r.distinct, len(cases), len(done), len(changed), len(cases) - len(done), r.wall))
     if not changed or len(done) == len(cases):
@@ -280,7 +281,7 @@ def run(rep, tier, seed, selftest):
         # the same for the caller/callee family: a corrupted expected value, and a refused program presented as accepted
         probe2 = common.Report("C01", tier, seed)
         probe2.known = []
-        victim = next(c for c in ptr_cases if c["status"] == "done" and c["out"][:11] != c["out"][-11:])
+        victim = next(c for c in ptr_cases if c["status"] == "done" and c["out"][:c["n"]] != c["out"][-c["n"]:])
         bad = json.loads(json.dumps(victim))
         bad["out"][-1][0] = (bad["out"][-1][0] + 1) % 256
         legal = json.loads(json.dumps(victim))
